@@ -163,8 +163,10 @@ pub fn check(seed: u64, case: &Kv, rep: &mut Report) {
     let mut r = Rng::new(seed, fnv(&key) ^ 0x8888);
     let n_in = net.input.count();
     let n_out = shapes.last().unwrap().out.count();
+    let identical = case.opt("data") == Some("identical");
     let xs: Vec<Tensor> = (0..n)
         .map(|i| {
+            let i = if identical { 0 } else { i };
             if onehot {
                 Tensor::one_hot(i, n_in)
             } else {
@@ -385,6 +387,12 @@ pub fn cases(thorough: bool) -> Vec<Kv> {
             for (n, b, e, b2, e2) in [(5usize, 2usize, 1usize, 3usize, 2usize), (4, 4, 2, 1, 1), (3, 2, 2, 2, 2), (6, 7, 1, 4, 1)] {
                 out.push(Kv::new().put("net", name).put("opt", ospec.name()).put("obj", "MSE").put("n", n).put("b", b).put("e", e).put("b2", b2).put("e2", e2));
             }
+        }
+    }
+    // a data set of identical samples (duplicates must still contribute once each)
+    for ospec in opts() {
+        for (n, b, e) in [(4usize, 2usize, 2usize), (5, 3, 1), (6, 6, 1)] {
+            out.push(Kv::new().put("net", "mlp").put("opt", ospec.name()).put("obj", "MSE").put("n", n).put("b", b).put("e", e).put("data", "identical"));
         }
     }
     // a wide layer with ordinary batch sizes (32, 64) and 150 samples
